@@ -18,7 +18,7 @@ Returns admission, offer and get instants per item."""
 EPS = 1e-9
 
 
-def simulate(L, il, v, cap, acc, producer, consumer, T, admit_first=(), chold=None, ccancel=None):
+def simulate(L, il, v, cap, acc, producer, consumer, T, admit_first=(), chold=None, ccancel=None, pcancel=None):
     """admit_first: collection of tie indices (in order of occurrence) resolved as 'admission before the stall'"""
     t = 0.0
     belt = []            # fronts of the items on the belt, head first (not yet offered)
@@ -35,6 +35,7 @@ def simulate(L, il, v, cap, acc, producer, consumer, T, admit_first=(), chold=No
     stall_seen = False
     stall_with_others = False
     take_at = None       # the consumer was handed the head and collects it later (chold): the item waits at the exit till then
+    withdrawn = []       # instants at which a granted admission was withdrawn at once (pcancel)
     held = []            # instants at which such a hold began
     cancelled = []       # instants at which a granted retrieval was withdrawn at once (ccancel): the item stays at the exit
     ties = []            # instants at which an admission request coincides with the head reaching the exit
@@ -96,9 +97,12 @@ def simulate(L, il, v, cap, acc, producer, consumer, T, admit_first=(), chold=No
             st0 = offered is not None
             fr0 = st0 and not acc
             if p_waiting and len(belt) + (1 if st0 else 0) < cap and not fr0 and (not belt or belt[-1] >= il - EPS):
-                belt.append(0.0)
-                ids.append(pi)
-                admit.append(t)
+                if pcancel and pi < len(pcancel) and pcancel[pi]:
+                    withdrawn.append(t)      # admission granted and withdrawn at once: nothing enters
+                else:
+                    belt.append(0.0)
+                    ids.append(len(admit))
+                    admit.append(t)
                 p_waiting = False
                 pi += 1
                 p_req = t + producer[pi] if pi < n_items else None
@@ -156,9 +160,12 @@ def simulate(L, il, v, cap, acc, producer, consumer, T, admit_first=(), chold=No
         frozen = stalled and not acc
         if p_waiting and len(belt) + (1 if stalled else 0) < cap and not frozen and (not belt or belt[-1] >= il - EPS):
             # while stalled on an accumulating belt the entrance must still be reachable
-            belt.append(0.0)
-            ids.append(pi)
-            admit.append(t)
+            if pcancel and pi < len(pcancel) and pcancel[pi]:
+                withdrawn.append(t)          # admission granted and withdrawn at once: nothing enters
+            else:
+                belt.append(0.0)
+                ids.append(len(admit))
+                admit.append(t)
             p_waiting = False
             pi += 1
             p_req = t + producer[pi] if pi < n_items else None
@@ -171,4 +178,4 @@ def simulate(L, il, v, cap, acc, producer, consumer, T, admit_first=(), chold=No
             if not nxt:
                 break
     return {"admit": admit, "offer": offer, "got": got, "stall": stall_seen, "stall_with_others": stall_with_others,
-            "ties": ties, "held": held, "cancelled": cancelled}
+            "ties": ties, "held": held, "cancelled": cancelled, "withdrawn": withdrawn}
